@@ -38,6 +38,7 @@ def _feat(cfg, avoid=()):
     f = gen.swarm_feat(cfg, avoid)
     f["loads"] = cfg.random() < 0.5
     f["p_load_never"] = 0.0
+    f["deep_loads"] = cfg.random() < 0.6
     f["rt_args"] = cfg.random() < 0.7
     f["share"] = cfg.choice([0.3, 0.6])
     f["phelpers"] = cfg.random() < 0.5
